@@ -1,6 +1,7 @@
 package main
 
 import (
+	"strings"
 	"fmt"
 	"math"
 	"net"
@@ -209,7 +210,13 @@ func closeBarrier(kind string, sinks []*fastSink, nwant int) (pre [][][]byte, cl
 	for _, s := range sinks {
 		pre = append(pre, s.readAvailable(nil))
 	}
-	if live := rtLiveLibraryThreads(); len(live) > 0 {
+	var live []string
+	for _, t := range rtLiveLibraryThreads() {
+		if id := t[:strings.Index(t, "@")]; !barrierIgnore[id] {
+			live = append(live, t)
+		}
+	}
+	if len(live) > 0 {
 		return pre, "reporter-goroutine-still-running-when-close-returned", fmt.Sprintf("threads started by the reporter that had not finished when Close returned: %v", live)
 	}
 	for d, dgs := range pre {
@@ -218,4 +225,15 @@ func closeBarrier(kind string, sinks []*fastSink, nwant int) (pre [][][]byte, cl
 		}
 	}
 	return pre, "", ""
+}
+
+// barrierIgnore: ids of library threads that belong to another, still open reporter of the same execution.
+var barrierIgnore = map[string]bool{}
+
+// ignoreLiveLibraryThreads marks the library threads alive now as not belonging to the reporter under test.
+func ignoreLiveLibraryThreads() {
+	barrierIgnore = map[string]bool{}
+	for _, t := range rtLiveLibraryThreads() {
+		barrierIgnore[t[:strings.Index(t, "@")]] = true
+	}
 }
